@@ -18,6 +18,8 @@ BAD_IMAGES = ['html', 'empty', 'garbage', 'png_cut20', 'png_cut40', 'jpeg_cut30'
 FONTS = ['otf', 'otf', 'woff', 'woff2', 'otf_cut', 'woff_bad', 'woff2_bad', 'empty', 'garbage', 'html']
 ATTACHED = ['png', 'css', 'empty', 'html', 'garbage']
 _counter = itertools.count(1)
+CASE_SECONDS = 20      # one document: render + write_pdf (normally a few hundredths of a second)
+LATE = ('background', 'borderimage')      # fetched by layout_backgrounds, after the whole tree has been built
 
 
 def doc_fonts(rng):
@@ -59,6 +61,15 @@ def fail_spec(rng, names, p_fail, mimes=(None,), escaping=0.06, redirects=(None,
                 has_mime=rng.random() < 0.9, redirected=rng.choice(redirects))
 
 
+def expected_uri(iri):
+    """RFC 3987 → 3986 as the property needs it (the harness's own statement, not weasyprint's iri_to_uri): UTF-8, then
+    percent-encoding of every byte that is not allowed in a URI; an existing `%` escape is kept."""
+    if iri.startswith('data:'):
+        return iri
+    from urllib.parse import quote
+    return quote(iri.encode('utf-8'), safe=b"/:?#[]@!$&'()*+,;=~%")
+
+
 class DocGen:
     def __init__(self, rng, tmp):
         self.rng, self.tmp = rng, tmp
@@ -71,16 +82,19 @@ class DocGen:
         self.ids = itertools.count(1)
 
     # ---------------------------------------------------------------- URLs
-    def url(self, stem, ext, base=None):
+    def url(self, stem, ext, base=None, decor=''):
         """(text written in the document, absolute URL the fetcher must receive); relative references resolve
-        against `base` (the URL of the stylesheet they are written in; default: the document's base URL)."""
+        against `base` (the URL of the stylesheet they are written in; default: the document's base URL).
+        `decor`: characters put in the file name that `iri_to_uri` must (or must not) escape."""
         base = base or self.base
-        name = f'{stem}{self.n}x{next(self.ids)}.{ext}'
+        name = f'{stem}{self.n}x{next(self.ids)}{decor}.{ext}'
         r = self.rng.random() if not base.startswith('data:') else 0.5
+        if decor:
+            r = min(r, 0.89)        # not a data: URL (left as it is by iri_to_uri)
         if r < 0.3:
-            return name, urljoin(base, name)             # relative
+            return name, expected_uri(urljoin(base, name))             # relative
         if r < 0.4:
-            return f'sub/{name}', urljoin(base, f'sub/{name}')
+            return f'sub/{name}', expected_uri(urljoin(base, f'sub/{name}'))
         if r < 0.6:
             url = f'http://res.test/{name}'
         elif r < 0.8:
@@ -89,7 +103,7 @@ class DocGen:
             url = f'https://cdn.test/x/{name}'
         else:
             url = f'data:application/x-c20;n={name},QUJD'
-        return url, url
+        return url, expected_uri(url)
 
     def local_file(self, url, spec):
         """For file: URLs (or redirects) under tmp: sometimes a *different* file exists at that path."""
@@ -158,8 +172,11 @@ class DocGen:
         return items
 
     def sheet(self, url, depth, mimes):
-        spec = fail_spec(self.rng, ['css'], 0.35, mimes=mimes)
-        sheet = {'url': url, 'spec': spec, 'items': self.css_items(depth, url)}
+        spec = fail_spec(self.rng, ['css'], 0.35, mimes=mimes,
+                         redirects=[None] * 5 + [f'http://moved.test/m{self.n}x{next(self.ids)}/s.css'])
+        # CSS.__init__: base_url = result.get('redirected_url', url): relative @imports resolve against it
+        own = spec.redirected if (spec.kind == 'resp' and spec.redirected) else url
+        sheet = {'url': url, 'spec': spec, 'items': self.css_items(depth, own)}
         self.table[url] = spec
         return sheet
 
@@ -226,7 +243,7 @@ class DocGen:
             if item['kind'] == 'import':
                 sheet = item['sheet']
                 spec = sheet['spec']
-                if spec.kind == 'resp':
+                if spec.kind == 'resp' and not sheet.get('raw'):
                     content = R.Content(5000 + next(_counter), 'css', self.css_text(sheet['items'], drop_failed).encode())
                     content.xml_ok, content.pil, content.woff, content.woff_ok, content.font_ok = False, None, False, True, False
                     table[sheet['url']] = Spec('resp', content=content, string=spec.string, file_obj=spec.file_obj,
@@ -237,26 +254,42 @@ class DocGen:
                 self.serve_sheets(item['items'], table, drop_failed)
 
     # ---------------------------------------------------------------- the document
+    def reset(self):
+        self.styles, self.images, self.metas, self.annots = [], [], [], []
+        self.svg_docs = {}        # url -> (Content, [('image', resolved url | None) | ('use', url)])
+        self.api_attachments = []
+        self.optimize = self.quality = False
+        return self
+
     def generate(self):
         rng = self.rng
-        self.styles, self.images, self.metas, self.annots = [], [], [], []
+        self.reset()
         for _ in range(rng.choice([0, 1, 1, 2, 3])):
             if rng.random() < 0.4:
                 self.styles.append({'kind': 'style', 'items': self.css_items(2)})
             else:
-                text, url = self.url('sheet', 'css')
+                text, url = self.url('sheet', 'css', decor=rng.choice(['', '', '', '', ' b', '%41', '\u00e9']))
                 sheet = self.sheet(url, 2, ['text/css'] * 4 + ['text/html', None])
+                if rng.random() < 0.15:
+                    text = rng.choice([' {} ', '\n{}', '{}\t']).format(text)
                 self.styles.append({'kind': 'link', 'text': text, 'url': url, 'sheet': sheet})
                 self.kinds.add('link')
         for _ in range(rng.choice([0, 1, 2, 3, 4, 6])):
-            kind = rng.choice(['img', 'img', 'img', 'embed', 'object', 'background', 'liststyle', 'content'])
+            kind = rng.choice(['img', 'img', 'img', 'embed', 'object', 'background', 'liststyle', 'content', 'borderimage'])
             missing = kind in ('img', 'embed', 'object') and rng.random() < 0.08
-            text, url = self.url('pic', rng.choice(['png', 'jpg', 'svg']))
+            decor = rng.choice(['', '', '', '', '', ' b', '%41', '\u00e9'])
+            text, url = self.url('pic', rng.choice(['png', 'jpg', 'svg']), decor=decor)
             if self.images and rng.random() < 0.15:      # the same resource twice: one fetch
                 previous = rng.choice(self.images)
-                if previous['url']:
+                if previous['url'] and previous['url'] not in self.svg_docs:
                     text, url = previous['text'], previous['url']
+                    if kind not in ('img', 'embed', 'object'):
+                        text = text.strip()      # a CSS string cannot hold the newline an HTML attribute may carry
             names = doc_images(rng)
+            if (url not in self.table and kind in ('img', 'embed', 'object') and not missing and
+                    not url.startswith('data:') and rng.random() < 0.22):
+                self.table[url] = self.svg_document(url)
+                self.kinds.add('svg-with-references')
             if url not in self.table:
                 redirects = [None] * 6 + [f'file://{self.tmp}/redir{self.n}x{next(self.ids)}.png', 'http://cdn.test/moved.png']
                 spec = fail_spec(rng, names, 0.35, mimes=[None, 'image/png', 'image/svg+xml', 'text/html', 'image/jpeg'],
@@ -264,8 +297,10 @@ class DocGen:
                 self.table[url] = spec
                 self.local_file(url, spec)
             orient = rng.choice(['from-image'] * 5 + ['none', (90, False)])
-            if kind in ('liststyle', 'content'):
+            if kind in ('liststyle', 'content', 'borderimage'):
                 orient = 'from-image'   # ::marker / ::before do not inherit image-orientation in WeasyPrint
+            if kind in ('img', 'embed', 'object') and rng.random() < 0.15:
+                text = rng.choice([' {} ', '\n{}', '{}\t ', '  {}\n']).format(text)     # HTML: the attribute value is stripped
             self.images.append({'kind': kind, 'text': None if missing else text, 'url': None if missing else url,
                                 'alt': rng.choice([None, '', f'ALT{len(self.images)}']) if kind == 'img' else None,
                                 'orient': orient, 'forced': rng.choice([None, None, 'image/png', 'image/svg+xml'])
@@ -292,6 +327,44 @@ class DocGen:
         self.optimize = rng.random() < 0.25
         self.quality = rng.random() < 0.15
         return self
+
+    def svg_document(self, url):
+        """An SVG image whose drawing fetches: <image> elements (href relative to the SVG's URL, absolute, or missing),
+        <use> of another document (the fetcher is called directly) and of a local element (no fetch)."""
+        rng = self.rng
+        parts, items = [], []
+        for _ in range(rng.choice([1, 1, 2, 3])):
+            r = rng.random()
+            if r < 0.62:
+                text, inner = self.url('inner', rng.choice(['png', 'jpg']), base=url)
+                if inner.startswith('data:'):
+                    text = inner = f'http://res.test/inner{self.n}x{next(self.ids)}.png'
+                spec = fail_spec(rng, doc_images(rng), 0.35, mimes=[None, 'image/png', 'text/html'], escaping=0.1)
+                if spec.kind == 'resp' and spec.content.name == 'xhtml':
+                    spec.content = R.bank()['html']
+                self.table[inner] = spec
+                self.local_file(inner, spec)
+                attr = rng.choice(['href', 'xlink:href'])
+                parts.append(f'<image {attr}="{text}" width="5" height="5"/>')
+                items.append(('image', inner))
+            elif r < 0.72:
+                parts.append('<image width="5" height="5"/>')
+                items.append(('image', None))
+            elif r < 0.9:
+                target = urljoin(url, f'use{self.n}x{next(self.ids)}.svg') + '#a'
+                self.table[target] = fail_spec(rng, ['svg', 'html', 'empty'], 0.4, escaping=0.2)
+                parts.append(f'<use xlink:href="{target.rsplit("/", 1)[1]}"/>')
+                items.append(('use', target))
+            else:
+                parts.append('<use href="#loc"/><g id="loc"><rect width="1" height="1"/></g>')
+        data = ('<svg xmlns="http://www.w3.org/2000/svg" xmlns:xlink="http://www.w3.org/1999/xlink" width="12" height="9">'
+                + ''.join(parts) + '</svg>').encode()
+        content = R.Content(7000 + next(_counter), 'svgdoc', data)
+        content.xml_ok, content.pil, content.woff, content.woff_ok, content.font_ok = True, None, False, True, False
+        self.svg_docs[url] = (content, items)
+        string = rng.random() < 0.7
+        return Spec('resp', content=content, string=string, file_obj=None if string else (None, False),
+                    mime=rng.choice(['image/svg+xml', None, 'image/png']))
 
     def api_list(self, drop_failed=False):
         return [u for u in self.api_attachments if not (drop_failed and self.table[u].kind == 'raises')]
@@ -330,14 +403,17 @@ class DocGen:
                 attrs = (f' data="{src}"' if src is not None else '') + (f' type="{ref["forced"]}"' if ref['forced'] else '')
                 inner = f'<object{attrs} style="{orient}">FB{i}</object>'
             elif kind == 'background':
-                decl = f'background-image:url({src});' if src is not None else ''
+                decl = f'background-image:url(\'{src}\');' if src is not None else ''
                 inner = f'<div id=bg{i} style="{decl}{orient}width:30px;height:10px"></div>'
+            elif kind == 'borderimage':
+                decl = f'border-image-source:url(\'{src}\');' if src is not None else ''
+                inner = f'<div id=bg{i} style="border:2px solid;{decl}width:30px;height:10px"></div>'
             elif kind == 'liststyle':
-                decl = f'list-style-image:url({src});' if src is not None else ''
+                decl = f'list-style-image:url(\'{src}\');' if src is not None else ''
                 inner = f'<ul><li id=li{i} style="{decl}{orient}">x</li></ul>'
             else:
                 if src is not None:
-                    rules.append(f'#c{i}::before{{content:url({src})}}')
+                    rules.append(f'#c{i}::before{{content:url(\'{src}\')}}')
                 elif ref['text'] is not None:
                     # css-content: an image that cannot be displayed is left out of the content list
                     rules.append(f'#c{i}::before{{content:""}}')
@@ -365,13 +441,15 @@ class DocGen:
             else:
                 styles.append(['el', True, 'none', 'none', enc('stylesheet'), enc(style['text']), enc(style['url']), [],
                                self.sheet_wire(style['sheet'])])
-        ordered = [r for r in self.images if r['kind'] != 'background'] + [r for r in self.images if r['kind'] == 'background']
+        ordered = [r for r in self.images if r['kind'] not in LATE] + [r for r in self.images if r['kind'] in LATE]
         images = [[{'liststyle': 'liststyle'}.get(r['kind'], r['kind']), enc(r['url']), enc(r['alt']),
                    r['orient'] if isinstance(r['orient'], str) else list(r['orient']), enc(r['forced'])] for r in ordered]
         fs = [[enc(path), content.id] for path, content in self.fs.items()]
         table = R.Recorder(self.table).sx()
+        svgs = [[content.id, [['image', enc(u)] if k == 'image' else ['use', enc(u)] for k, u in items]]
+                for content, items in self.svg_docs.values()]
         return ['doc', enc('print'), styles, images, [enc(m['url']) for m in self.metas] + [enc(u) for u in self.api_attachments],
-                [enc(a['url']) for a in self.annots], table, [self.optimize, self.quality], fs]
+                [enc(a['url']) for a in self.annots], table, [self.optimize, self.quality], fs, svgs]
 
     def fetch_table(self, drop_failed=False):
         table = dict(self.table)
@@ -380,7 +458,7 @@ class DocGen:
             if style['kind'] == 'link':
                 sheet = style['sheet']
                 spec = sheet['spec']
-                if spec.kind == 'resp':
+                if spec.kind == 'resp' and not sheet.get('raw'):
                     content = R.Content(5000 + next(_counter), 'css', self.css_text(items, drop_failed).encode())
                     content.xml_ok, content.pil, content.woff, content.woff_ok, content.font_ok = False, None, False, True, False
                     table[sheet['url']] = Spec('resp', content=content, string=spec.string, file_obj=spec.file_obj,
@@ -394,8 +472,10 @@ class DocGen:
 
 def category(url):
     name = url.rsplit('/', 1)[-1] if not url.startswith('data:') else url.split('n=', 1)[-1]
+    if url == 'None':
+        return 'paint'        # svg <image> without href: get_image_from_uri(url=None)
     for stem, cat in (('imp', 'css'), ('sheet', 'css'), ('font', 'css'), ('pic', 'img'), ('att', 'att'), ('lnk', 'att'),
-                      ('redir', 'img')):
+                      ('redir', 'img'), ('inner', 'paint'), ('use', 'paint')):
         if name.startswith(stem):
             return cat
     return 'other'
@@ -403,7 +483,7 @@ def category(url):
 
 def split_log(events):
     """Recorder events -> {category: [events]}; a close event belongs to the call before it."""
-    out = {'css': [], 'img': [], 'att': [], 'other': []}
+    out = {'css': [], 'img': [], 'att': [], 'paint': [], 'other': []}
     current = 'other'
     for event in events:
         if event.startswith('call='):
@@ -417,7 +497,10 @@ def decode(text):
     assert text.startswith("'")
     out, i, text = [], 0, text[1:]
     while i < len(text):
-        if text[i] == '~':
+        if text[i] == '~' and text[i + 1] == 'u':
+            out.append(chr(int(text[i + 2:i + 8], 16)))
+            i += 8
+        elif text[i] == '~':
             out.append(chr(int(text[i + 1:i + 3], 16)))
             i += 3
         else:
@@ -467,7 +550,10 @@ def ref_boxes(document, gen):
         inside = list(walk(wrapper))[1:] if wrapper is not None else []
         replaced = any(isinstance(b, boxes.ReplacedBox) for b in inside)
         texts = ''.join(b.text for b in inside if isinstance(b, boxes.TextBox))
-        if kind == 'background':
+        if kind == 'borderimage':
+            box = by_id.get(f'bg{i}')
+            shown = ['replaced'] if (box is not None and getattr(box, 'border_image', None) is not None) else []
+        elif kind == 'background':
             box = by_id.get(f'bg{i}')
             layers = box.background.layers if (box is not None and box.background) else []
             shown = ['replaced'] if any(layer.image is not None for layer in layers) else []
@@ -480,8 +566,8 @@ def ref_boxes(document, gen):
         else:
             shown = ['replaced'] if replaced else []
         out[i] = '[' + ','.join(shown) + ']'
-    ordered = [i for i, r in enumerate(gen.images) if r['kind'] != 'background'] + \
-              [i for i, r in enumerate(gen.images) if r['kind'] == 'background']
+    ordered = [i for i, r in enumerate(gen.images) if r['kind'] not in LATE] + \
+              [i for i, r in enumerate(gen.images) if r['kind'] in LATE]
     return [out[i] for i in ordered]
 
 
@@ -526,11 +612,14 @@ def app_font_count():
 def run_real(gen, drop_failed=False, watch=True):
     """Render and write the document; -> dict of observables."""
     recorder = R.Recorder(gen.fetch_table(drop_failed))
+    recorder.check_named = True
+    if any(kind == 'image' and url is None for _, items in gen.svg_docs.values() for kind, url in items):
+        recorder.extra_named = ['None']       # known finding svg-image-without-href
     obs = {'render': 'ok', 'write': 'ok', 'fingerprint': None, 'boxes': [], 'rules': [], 'embedded': [], 'annots': [],
            'opens': [], 'net': [], 'installed': 0}
     fonts_before = app_font_count()
     holder = {}
-    with R.Audit.watch() as events:
+    with R.Audit.watch() as events, R.time_limit(CASE_SECONDS):
         try:
             document = docs.html(gen.html(drop_failed), base_url=gen.base, url_fetcher=recorder).render(
                 optimize_images=gen.optimize, jpeg_quality=60 if gen.quality else None)
@@ -564,11 +653,11 @@ def show_real(gen, obs, absent):
     render_css = obs['log_render']['css']
     render_img = obs['log_render']['img']
     stray = obs['log_render']['att'] + obs['log_render']['other'] + obs['log_write']['css'] + obs['log_write']['img'] + \
-        obs['log_write']['other']
+        obs['log_write']['other'] + obs['log_render']['paint']
     opens = '-' if obs['write'] == 'err:FileNotFoundError' else '[' + ','.join(enc(p) for p in obs['opens']) + ']'
     text = (f'css={log(render_css)} rules=[{",".join(map(str, obs["rules"]))}] fonts=[] installed={obs["installed"]} '
             f'img={log(render_img)} boxes=[{",".join(obs["boxes"])}] render={obs["render"]} '
-            f'att={log(obs["log_write"]["att"])} embedded=[{",".join(obs["embedded"])}] annots=[{",".join(obs["annots"])}] '
+            f'att={log(obs["log_write"]["att"])} paint={log(obs["log_write"]["paint"])} embedded=[{",".join(obs["embedded"])}] annots=[{",".join(obs["annots"])}] '
             f'opens={opens} write={obs["write"]} absent={absent}')
     if stray:
         text += f' STRAY-FETCH={log(stray)}'
@@ -586,22 +675,170 @@ def section(run):
                       'http:, data: and relative URLs; recording memory fetcher with every failure mode; render + write_pdf under '
                       'sys.addaudithook: fetch log per stage, boxes, applied rules, embedded files, local files opened, outcome, '
                       'layout fingerprint vs the document without the failed references; non-trivial = a reference fails')
+    import collections
+    stats = collections.defaultdict(collections.Counter)
     tmp = Path(tempfile.mkdtemp(prefix='c20-doc-'))
     try:
-        for _ in range(run.n(450, 5000)):
+        for _ in range(run.n(350, 5000)):
             gen = DocGen(run.rng, tmp).generate()
             line, out, nontrivial = one_document(gen)
+            stats['resources-per-document'][min(len(gen.table), 20)] += 1
+            for spec in gen.table.values():
+                stats['fetch-outcomes'][spec.kind if spec.kind != 'resp' else ('escaping-response' if spec.escaping else spec.content.name.split('@')[0].split('_cut')[0].split('_flip')[0])] += 1
+            for stage in ('render', 'write'):
+                if f' {stage}=err:' in out:
+                    stats['escaping-exception-classes'][out.split(f' {stage}=err:')[1].split(' ')[0]] += 1
+                    break
             outcome = [t for t, mark in (('render-escapes', 'render=err'), ('write-escapes', ' write=err'),
                                          ('local-file-read', "opens=['"), ('local-file-missing', 'opens=-'),
                                          ('absent-compared', 'absent=eq')) if mark in out]
             plain = is_plain(gen)
-            meta = {'base': gen.base, 'kinds': sorted(gen.kinds), 'plain': plain, 'html': gen.html()}
+            meta = {'base': gen.base, 'kinds': sorted(gen.kinds), 'plain': plain, 'html': gen.html(),
+                    'svg_only_escapes': svg_only_escapes(gen)}
             if plain:
                 meta['replay'] = payload(gen, '')['input']
             sec.add(line, out, meta=meta, nontrivial=nontrivial, tags=sorted(gen.kinds) + outcome + (['plain'] if plain else []))
         sec.flush()
     finally:
         shutil.rmtree(tmp, ignore_errors=True)
+    run.extra['document_generator_distribution'] = {k: dict(sorted(v.items(), key=lambda kv: str(kv[0])))
+                                                    for k, v in stats.items()}
+    matrix_section(run)
+
+
+# ----------------------------------------------------------------------------------------------------
+# the complete matrix: every resource kind x every failure kind, one document each
+
+MATRIX_KINDS = ['link', 'import', 'font', 'img', 'embed', 'object', 'background', 'borderimage', 'liststyle', 'content',
+                'meta', 'annot', 'api', 'svgimage', 'svguse']
+MATRIX_MODES = ['ok', 'raises', 'empty', 'truncated', 'wrongtype', 'html', 'wrongmime', 'readerror', 'notdict', 'closewarn',
+                'truncated-open']
+
+
+def matrix_spec(family, mode):
+    """The fetch outcome `mode` for a resource of `family` ('css' | 'image' | 'font' | 'file'); for css -> (spec, raw)."""
+    contents = R.bank()
+    good = {'image': 'png', 'font': 'otf', 'file': 'css', 'css': 'css'}[family]
+    good_mime = {'image': 'image/png', 'font': 'font/otf', 'file': None, 'css': 'text/css'}[family]
+    if mode == 'raises':
+        return Spec('raises', exc=OSError('connection reset'))
+    if mode == 'notdict':
+        return Spec('notdict')
+    if mode == 'readerror':
+        return Spec('resp', content=contents[good], string=False, file_obj=(EOFError('Compressed file ended'), False),
+                    mime=good_mime)
+    if mode == 'closewarn':
+        return Spec('resp', content=contents[good], string=False, file_obj=(None, True), mime=good_mime)
+    if mode == 'wrongmime':
+        return Spec('resp', content=contents[good], string=True, mime='text/html')
+    cut_png = next(n for n in R.damaged_names('image') if n.startswith('png_cut@') and contents[n].pil is None)
+    name = {
+        'ok': good, 'empty': 'empty', 'html': 'html',
+        'truncated': {'image': cut_png, 'font': 'woff2_cut@100', 'file': cut_png, 'css': 'css'}[family],
+        'truncated-open': {'image': 'png_cut_tail', 'font': 'otf_cut@60', 'file': 'png_cut_tail', 'css': 'css'}[family],
+        'wrongtype': {'image': 'otf', 'font': 'png', 'file': 'otf', 'css': 'png'}[family],
+    }[mode]
+    return Spec('resp', content=contents[name], string=True, mime=good_mime)
+
+
+def matrix_document(rng, tmp, kind, mode):
+    """One document with one reference of `kind` whose fetch does `mode`."""
+    gen = DocGen(rng, tmp).reset()
+    gen.base = 'http://doc.test/dir/'
+    n = gen.n
+
+    def css_sheet(url):
+        spec = matrix_spec('css', mode)
+        raw = mode not in ('ok', 'wrongmime', 'closewarn', 'readerror', 'truncated', 'truncated-open')
+        items = [] if raw else [{'kind': 'rule', 'n': 7}]
+        if mode in ('truncated', 'truncated-open'):
+            # a stylesheet cut in the middle of its second rule: the first rule stays
+            content = R.Content(6000 + next(_counter), 'css', b'.r7{width:7px}.r9{wid')
+            content.xml_ok, content.pil, content.woff, content.woff_ok, content.font_ok = False, None, False, True, False
+            spec = Spec('resp', content=content, string=True, mime='text/css')
+            raw = True
+            items = [{'kind': 'rule', 'n': 7}]
+        gen.rule_ids.update({7, 9})
+        gen.table[url] = spec
+        return {'url': url, 'spec': spec, 'items': items, 'raw': raw}
+
+    if kind == 'link':
+        url = f'http://res.test/sheet{n}.css'
+        gen.styles.append({'kind': 'link', 'text': url, 'url': url, 'sheet': css_sheet(url)})
+    elif kind == 'import':
+        url = f'http://res.test/imp{n}.css'
+        gen.styles.append({'kind': 'style', 'items': [
+            {'kind': 'import', 'text': url, 'url': url, 'mtext': '', 'mwire': ["'all"], 'sheet': css_sheet(url), 'quoted': True},
+            {'kind': 'rule', 'n': 3}]})
+        gen.rule_ids.add(3)
+    elif kind == 'font':
+        url = f'http://res.test/font{n}.otf'
+        spec = matrix_spec('font', mode)
+        gen.table[url] = spec
+        gen.styles.append({'kind': 'style', 'items': [
+            {'kind': 'fontface', 'key': next(_counter), 'srcs': [{'kind': 'ext', 'text': url, 'url': url, 'spec': spec}]}]})
+    elif kind in ('img', 'embed', 'object', 'background', 'borderimage', 'liststyle', 'content'):
+        url = f'http://res.test/pic{n}.png'
+        gen.table[url] = matrix_spec('image', mode)
+        gen.images.append({'kind': kind, 'text': url, 'url': url, 'alt': 'ALT0' if kind == 'img' else None,
+                           'orient': 'from-image', 'forced': None})
+    elif kind in ('meta', 'annot', 'api'):
+        url = f'http://res.test/{"lnk" if kind == "annot" else "att"}{n}.bin'
+        gen.table[url] = matrix_spec('file', mode)
+        if kind == 'meta':
+            gen.metas.append({'text': url, 'url': url})
+        elif kind == 'annot':
+            gen.annots.append({'text': url, 'url': url})
+        else:
+            gen.api_attachments.append(url)
+    else:
+        url = f'http://res.test/pic{n}.svg'
+        if kind == 'svgimage':
+            inner = f'http://res.test/inner{n}.png'
+            gen.table[inner] = matrix_spec('image', mode)
+            body, items = f'<image href="{inner}" width="5" height="5"/>', [('image', inner)]
+        else:
+            inner = f'http://res.test/use{n}.svg#a'
+            spec = matrix_spec('image', mode)
+            if spec.kind == 'resp':
+                spec.content = R.bank()['svg'] if mode in ('ok', 'closewarn', 'readerror', 'wrongmime') else spec.content
+            gen.table[inner] = spec
+            body, items = f'<use xlink:href="{inner}"/>', [('use', inner)]
+        data = ('<svg xmlns="http://www.w3.org/2000/svg" xmlns:xlink="http://www.w3.org/1999/xlink" width="12" height="9">'
+                + body + '</svg>').encode()
+        content = R.Content(7000 + next(_counter), 'svgdoc', data)
+        content.xml_ok, content.pil, content.woff, content.woff_ok, content.font_ok = True, None, False, True, False
+        gen.svg_docs[url] = (content, items)
+        gen.table[url] = Spec('resp', content=content, string=True, mime='image/svg+xml')
+        gen.images.append({'kind': 'img', 'text': url, 'url': url, 'alt': 'ALT0', 'orient': 'from-image', 'forced': None})
+    gen.kinds.add(f'{kind}/{mode}')
+    return gen
+
+
+def matrix_section(run):
+    """Every resource kind x every failure kind: compared with the model, with the document without the reference when
+    the failure is a graceful one, and with the known outcome class of the cell."""
+    sec = run.section('kind-x-failure-matrix', 'one document per (resource kind, failure kind) cell: ' + ', '.join(MATRIX_KINDS)
+                      + ' x ' + ', '.join(MATRIX_MODES) + '; same observables as `documents`; non-trivial = the fetch fails')
+    tmp = Path(tempfile.mkdtemp(prefix='c20-matrix-'))
+    cells = {}
+    try:
+        for kind in MATRIX_KINDS:
+            for mode in MATRIX_MODES:
+                gen = matrix_document(run.rng, tmp, kind, mode)
+                line, out, _ = one_document(gen)
+                cell = ('completes' if ' write=ok' in out else 'escapes') + ('/absent-eq' if 'absent=eq' in out else '')
+                cells[f'{kind}/{mode}'] = cell
+                plain = is_plain(gen)
+                meta = {'base': gen.base, 'kinds': sorted(gen.kinds), 'plain': plain, 'html': gen.html()}
+                if plain:
+                    meta['replay'] = payload(gen, '')['input']
+                sec.add(line, out, meta=meta, nontrivial=mode != 'ok', tags=[f'kind:{kind}', f'mode:{mode}', cell])
+    finally:
+        shutil.rmtree(tmp, ignore_errors=True)
+    run.extra['failure_matrix'] = cells
+    # the cells where a failing fetch aborts the rendering (all are instances of the known findings)
+    run.extra['failure_matrix_escaping_cells'] = sorted(k for k, v in cells.items() if v.startswith('escapes'))
 
 
 def one_document(gen):
@@ -637,7 +874,7 @@ def oracle(html, base, table, tmp_prefix, expect, options=None):
     docs._env()     # the harness's own UA stylesheet and test font are loaded outside the audit window
     recorder = R.Recorder(dict(table))
     holder = {}
-    with R.Audit.watch() as events:
+    with R.Audit.watch() as events, R.time_limit(CASE_SECONDS):
         try:
             options = dict(options or {})
             attachments = options.pop('attachments', None)
@@ -647,6 +884,9 @@ def oracle(html, base, table, tmp_prefix, expect, options=None):
         except Exception as exc:  # noqa: BLE001
             return (f'rendering raised {type(exc).__name__}: {str(exc)[:120]} although every fetch either raised at the '
                     f'fetcher or returned (possibly empty / truncated / wrong-type) bytes')
+    unclosed = [fo for fo in recorder.file_objects if not fo.closed]
+    if unclosed:
+        return f'{len(unclosed)} file object(s) returned by the fetcher were never closed'
     net = [d for k, d in events if k == 'net']
     if net:
         return f'network access behind the fetcher: {net[:3]}'
@@ -706,33 +946,38 @@ def oracle(html, base, table, tmp_prefix, expect, options=None):
 
 def plain_document(rng, tmp):
     """A document whose fetch failures are all plain failure modes (fetcher raises; empty / truncated / wrong-type /
-    HTML data; wrong MIME type), no file: redirects (no LazyLocalImage): the property must hold on it."""
+    HTML data; wrong MIME type), no file: locations (no LazyLocalImage): the property must hold on it."""
     for _ in range(50):
         gen = DocGen(rng, tmp)
         gen.base = rng.choice(['http://doc.test/dir/', 'https://doc.test/a/b/'])
         gen.generate()
-        bad = False
-        for url, spec in gen.table.items():
-            if spec.escaping or (spec.kind == 'resp' and spec.redirected):
-                bad = True
-            if url.startswith('file:') and category(url) == 'img':
-                bad = True
-            if spec.kind == 'resp' and spec.content.name == 'xhtml':
-                bad = True      # known finding xml-accepted-as-image
-        if not bad:
+        if is_plain(gen):
             return gen
     return None
+
+
+def svg_only_escapes(gen):
+    """Some fetch outcome is of the unabsorbed kind, but only for resources referenced from inside SVG images — whose
+    drawing absorbs every exception: the document must still render and be written."""
+    escaping = [url for url, spec in gen.table.items() if spec.escaping]
+    return bool(escaping) and all(category(url) == 'paint' for url in escaping)
 
 
 def is_plain(gen):
     """Only plain failure modes and nothing touching a known finding: the property must hold on this document."""
     for url, spec in gen.table.items():
-        if spec.escaping or (spec.kind == 'resp' and spec.redirected):
+        if spec.escaping or (spec.kind == 'resp' and spec.redirected and category(url) in ('img', 'paint')):
             return False
-        if url.startswith('file:') and category(url) == 'img':
+        if url.startswith('file:') and category(url) in ('img', 'paint'):
             return False
         if spec.kind == 'resp' and spec.content.name == 'xhtml':
             return False
+    for _, items in gen.svg_docs.values():
+        for kind, url in items:
+            if kind == 'image' and url is None:
+                return False        # known finding svg-image-without-href
+            if kind == 'use' and gen.table[url].kind == 'resp' and gen.table[url].file_obj is not None:
+                return False        # known finding svg-use-bypasses-fetch (the file object is never closed)
     return True
 
 
@@ -776,7 +1021,7 @@ def expectations(gen):
     urls = set(gen.table) | {r['url'] for r in gen.images if r['url']}
     replaced, alt = [], {}
     for i, ref in enumerate(gen.images):
-        if not ref['url'] or ref['kind'] in ('background',):
+        if not ref['url'] or ref['kind'] in LATE:
             continue
         spec = gen.table[ref['url']]
         loads = spec.delivers and spec.content.image_loads
@@ -970,7 +1215,71 @@ def finding_xml_image():
             not any(isinstance(b, boxes.TextBox) and b.text == 'ALT' for b in found))
 
 
+def finding_svg_none():
+    """<svg><image/></svg>: the caller's fetcher is called with None."""
+    calls = []
+
+    def fetcher(url):
+        calls.append(url)
+        if url is None:
+            raise ValueError('not a URL')
+        return {'string': b'<svg xmlns="http://www.w3.org/2000/svg" width="9" height="9"><image width="5" height="5"/></svg>',
+                'mime_type': 'image/svg+xml'}
+    _render('<img src="http://x.test/a.svg">', fetcher)
+    return None in calls
+
+
+def finding_svg_use():
+    """External <use>: fetcher called directly, the returned file object is never closed."""
+    state = {'closed': 0, 'opened': 0}
+
+    class Stream:
+        def __init__(self, data):
+            import io
+            self.buffer = io.BytesIO(data)
+            state['opened'] += 1
+
+        def read(self, *args):
+            return self.buffer.read(*args)
+
+        def close(self):
+            state['closed'] += 1
+    svg = (b'<svg xmlns="http://www.w3.org/2000/svg" xmlns:xlink="http://www.w3.org/1999/xlink" width="9" height="9">'
+           b'<use xlink:href="other.svg#a"/></svg>')
+
+    def fetcher(url):
+        if 'other' in url:
+            return {'file_obj': Stream(R.SVG_OK), 'mime_type': 'image/svg+xml'}
+        return {'string': svg, 'mime_type': 'image/svg+xml'}
+    _render('<img src="http://x.test/a.svg">', fetcher)
+    return state['opened'] > state['closed']
+
+
+def finding_svg_self_reference():
+    """An SVG image with two <image> elements pointing at itself: each level of the recursion ends with a RecursionError
+    swallowed by SVGImage.draw, and the drawing goes on with the next element: exponential time."""
+    svg = ('<svg xmlns="http://www.w3.org/2000/svg" width="20" height="20">'
+           + '<image href="a.svg" width="9" height="9"/>' * 2 + '</svg>').encode()
+    try:
+        with R.time_limit(6):
+            _render('<img src="http://x.test/a.svg">', lambda url: {'string': svg, 'mime_type': 'image/svg+xml'})
+    except R.HarnessTimeout:
+        return True
+    return False
+
+
+def finding_import_cycle():
+    try:
+        _render('<link rel=stylesheet href="http://x.test/a.css">x',
+                lambda url: {'string': b'@import "a.css"; p{color:red}', 'mime_type': 'text/css'}, write=False)
+    except RecursionError:
+        return True
+    return False
+
+
 def finding_replays():
     docs.quiet()
     return {'lazy-local-image-reread': finding_lazy_local, 'read-error-not-funnelled': finding_read_error,
-            'xml-accepted-as-image': finding_xml_image}
+            'xml-accepted-as-image': finding_xml_image, 'svg-image-without-href': finding_svg_none,
+            'svg-use-bypasses-fetch': finding_svg_use, 'import-cycle-recursion': finding_import_cycle,
+            'svg-self-reference-hang': finding_svg_self_reference}
